@@ -158,7 +158,7 @@ PROPS["C10"] = {
     "rule": ("three monitors: every call of the match workloads under catch_unwind in a build with overflow checks and debug assertions; a slab hook asserting that each of the five "
              "views lies inside the slab and they are disjoint for every allocation; one long-lived Matcher serving a random call sequence (sizes alternating large/small, "
              "configurations switched) compared call by call with a brand new Matcher. distinct_nontrivial = distinct (haystack, needle, configuration) hashes"),
-    "require": {"any": {"c10.history-compared": 10000, "slab.allocs-checked": 10000, "slab.distinct-shapes": 500, "profile.far-start": 20, "profile.long-needle": 50}},
+    "require": {"any": {"c10.history-compared": 10000, "slab.allocs-checked": 10000, "slab.distinct-shapes": 500, "profile.far-start": 20, "profile.long-needle": 50, "c10.slab-frontiers-located": 300}},
     "assumptions": ["haystacks up to 3*10^5 characters (the documented limit 2^32 is out of reach)", "memory safety beyond view extents is judged by the Miri/ASan jobs"],
 }
 
@@ -282,6 +282,7 @@ def layout_jobs(tier, exhaust=False, asan=False):
     q = tier != "thorough"
     out = [
         bx("layout-chk", "layout", "chk", 2, 1000000, 10 if q else 120),
+        bx("layout-rel", "layout", "rel", 1, 1000000, 8 if q else 120),
         bx("layout-miri", "layout", "miri", 5 if q else 16, 1 if q else 40, 300 if q else 3000, sanitizer=True, miriflags=MIRI_SB, timeout=900 if q else 5000),
     ]
     if asan:
